@@ -115,16 +115,35 @@ Theorem T09_4_folder_run_bounded :
 Proof. exact folder_run_bounded. Qed.
 Print Assumptions T09_4_folder_run_bounded.
 
-(* ... and format_files returns False only with every file at a fixed point of format_file *)
+(* ... and (since the repair feb2676) format_files returns exactly whether a pass ran and some file's first
+   formatting reported a change ... *)
+Theorem T09_4_result_characterised :
+  forall (C Fid : Type) (ff : Fid -> C -> C * bool) (max_passes : nat) (folders : list (list (file C Fid))),
+    format_files_result C Fid ff max_passes folders
+    = (0 <? max_passes) && existsb (fun fs => existsb snd (map (format_one C Fid ff) fs)) folders.
+Proof. exact format_files_result_char. Qed.
+Print Assumptions T09_4_result_characterised.
+
+(* ... so False means that nothing was rewritten and every file is at a fixed point of format_file *)
 Theorem T09_4_false_means_all_fixed :
   forall (C Fid : Type) (ff : Fid -> C -> C * bool),
     (forall id c, snd (ff id c) = false -> fst (ff id c) = c) ->
   forall (max_passes : nat) (folders : list (list (file C Fid))),
+    0 < max_passes ->
     format_files_result C Fid ff max_passes folders = false ->
-    Forall (fun d => Forall (fun x => ff (fst x) (snd x) = (snd x, false)) (f_files d))
-           (fst (format_files_model C Fid ff max_passes folders)).
+    map (@f_files C Fid) (fst (format_files_model C Fid ff max_passes folders)) = folders /\
+    Forall (fun fs => Forall (fun x => ff (fst x) (snd x) = (snd x, false)) fs) folders.
 Proof. exact format_files_false_all_fixed. Qed.
 Print Assumptions T09_4_false_means_all_fixed.
+
+(* the pre-repair return value (flags of the last pass only) answered False for a run that rewrote a file *)
+Theorem R09_4_old_result_refuted :
+  exists (max_passes : nat) (folders : list (list (file nat nat))),
+    format_files_last_flags nat nat ff_once max_passes folders = false /\
+    map (@f_files nat nat) (fst (format_files_model nat nat ff_once max_passes folders)) <> folders /\
+    format_files_result nat nat ff_once max_passes folders = true.
+Proof. exact old_result_refuted. Qed.
+Print Assumptions R09_4_old_result_refuted.
 
 (* T09.7 the orientation heuristic fixes._orelse_preferred_as_body (used by swap_if_else, early_return,
    early_continue) is antisymmetric on well-formed branch summaries without dead code, unless both
